@@ -49,6 +49,12 @@ func c17List(tier string) []c17Case {
 	for _, v := range []string{"reattach-before-old-fails", "reattach-after-old-fails", "reattach-before-old-write-fails"} {
 		add("reattach", v, 4)
 	}
+	for _, v := range []string{"serve-loop-held-in-intercepter", "serve-loop-held-in-disconnect-callback"} {
+		for k := 0; k < 3; k++ {
+			i++
+			out = append(out, c17Case{"cancel-busy", v, -1, 2 + 3*k, []int{1, 4, 16}[i%3]})
+		}
+	}
 	reps := tierN(tier, 1, 12)
 	base := append([]c17Case{}, out...)
 	for r := 1; r < reps; r++ {
@@ -103,10 +109,18 @@ func c17Run(tier string, seed int64, idx int) *core.Result {
 			return p.link.B, nil
 		}
 		return nil, fmt.Errorf("cannot dial %q", id)
-	}, nil, func(id string, reason error) {
+	}, func(hd *goatorepo.RequestHeader) error {
+		if c.Variant == "serve-loop-held-in-intercepter" && hd.Destination == "hold" {
+			gates.Wait("serve-loop")
+		}
+		return nil
+	}, func(id string, reason error) {
 		mu.Lock()
 		disconnects = append(disconnects, id)
 		mu.Unlock()
+		if c.Variant == "serve-loop-held-in-disconnect-callback" && id == "failing" {
+			gates.Wait("serve-loop")
+		}
 	})
 	a0, a1 := mkPeer("a0", true), mkPeer("a1", true)
 	px.AddClient("a0", a0.link.B)
@@ -294,6 +308,32 @@ func c17Run(tier string, seed int64, idx int) *core.Result {
 			gates.Open("dial")
 			quiet(tier)
 		}
+	case "cancel-busy":
+		// the proxy's single serve loop is held inside user code (the rewriting function / the disconnect
+		// callback); meanwhile c.N more peers each hand it an envelope, so their read loops wait for the
+		// serve loop; then the context is cancelled and only afterwards the serve loop is let go
+		var more []*c17Peer
+		for k := 0; k < c.N; k++ {
+			p := mkPeer(fmt.Sprintf("m%d", k), true)
+			more = append(more, p)
+			px.AddClient(p.name, p.link.B)
+		}
+		if c.Variant == "serve-loop-held-in-intercepter" {
+			go a0.link.A.Write(ctx, env("a0", "hold", 1))
+		} else {
+			f := mkPeer("failing", true)
+			px.AddClient("failing", f.link.B)
+			f.link.B.FailRead()
+		}
+		settle(tier, func() bool { return gates.Reached("serve-loop") })
+		for k, p := range more {
+			go p.link.A.Write(ctx, env(p.name, "a1", 700+k))
+		}
+		quiet(tier)
+		res.Stat("cancel_while_serve_loop_busy", 1)
+		cancel()
+		quiet(tier)
+		gates.Open("serve-loop")
 	case "reattach":
 		newer := mkPeer("a1", true)
 		switch c.Variant {
@@ -383,12 +423,12 @@ func init() {
 	core.Register(&core.Prop{
 		ID:    "C17",
 		Level: "fault_enumeration",
-		Rule:  "families: (source) a peer attached as a0 sends envelopes whose source is equal / different (claims a1) / empty / whose header is absent, then good ones; (isolation) a third peer in the role {stuck writer, failing reader, failing writer, dial error, dial blocking on a gate} while envelope-by-envelope traffic a0<->a1 must keep arriving; (reattach) a1 re-attached before / after the old connection's read (or write) fails; each combined with cancellation of the proxy's context after every step (quick: 4 positions) and at the end, after which Serve must have returned and no goroutine with Proxy/proxyClient frames may remain at a final state. Each child runs one case (the proxy's goroutines must never leak into another case). Distinct = case tuples; all non-trivial.",
+		Rule:  "families: (source) a peer attached as a0 sends envelopes whose source is equal / different (claims a1) / empty / whose header is absent, then good ones; (isolation) a third peer in the role {stuck writer, failing reader, failing writer, dial error, dial blocking on a gate} while envelope-by-envelope traffic a0<->a1 must keep arriving; (reattach) a1 re-attached before / after the old connection's read (or write) fails; (cancel-busy) the context is cancelled while the serve loop is held inside the rewriting function or the disconnect callback and 2..8 peer read loops are waiting to hand it an envelope; each of the first three combined with cancellation of the proxy's context after every step (quick: 4 positions) and at the end, after which Serve must have returned and no goroutine with Proxy/proxyClient frames may remain at a final state. Each child runs one case (the proxy's goroutines must never leak into another case). Distinct = case tuples; all non-trivial.",
 		Plan:  func(tier string, seed int64) int { return len(c17List(tier)) },
 		Run:   c17Run,
 		Exhaustive: func(string) bool { return false },
 		RequiredStats: func(string) []string {
-			return []string{"hostile_source_envelopes", "healthy_envelopes_delivered", "failure_reports_checked", "reattach_checked", "shutdowns_checked", "hook:proxy.report"}
+			return []string{"hostile_source_envelopes", "healthy_envelopes_delivered", "failure_reports_checked", "reattach_checked", "shutdowns_checked", "hook:proxy.report", "cancel_while_serve_loop_busy"}
 		},
 	})
 }
